@@ -432,6 +432,27 @@ func (x *xl) namedConst(n ast.Node, txt string) (tx, bool) {
 		return tx{typ: "untyped", val: v}, true
 	}
 	if s, ok := x.fn.consts[txt]; ok {
+		if strings.HasPrefix(s, "src:") { // a constant declared in ANOTHER file of the package ("src:zapcore/level.go"): read there
+			_, f, err := parseTransFile(s[4:])
+			if err != nil {
+				x.fail(n, "constant %s: %v", txt, err)
+			}
+			name := txt
+			if i := strings.LastIndex(name, "."); i >= 0 {
+				name = name[i+1:]
+			}
+			saved := x.file
+			x.file = f
+			v, typ, ok := x.srcConstTyped(name)
+			x.file = saved
+			if !ok {
+				x.fail(n, "constant %s: no package-level constant declaration in %s", txt, s[4:])
+			}
+			if typ != "" {
+				return x.constTo(n, tx{typ: "untyped", val: v}, typ), true
+			}
+			return tx{typ: "untyped", val: v}, true
+		}
 		if s == "src" { // a package-level constant of the same file with a literal value: READ from the source
 			if v, typ, ok := x.srcConstTyped(txt); ok {
 				if typ != "" {
